@@ -225,6 +225,13 @@ type FnSpec struct {
 	Mutates bool // the receiver is updated through modelled operations the syntactic pre-pass does not see
 	Types   map[string]T // per-function overrides of the opaque type table
 	MutParams []string   // parameters that modelled operations update (pointer parameters)
+	// DeferRecover: the function starts with `[if cond {] defer func() { if ret := recover(); ret != nil { … } }() [}]`.
+	// The rest of the body is translated as a nested block whose result carries the state and an `Option Panic`
+	// (component PnIndex of the result tuple: `some p` = the body panicked with p, produced by the modelled
+	// panicking operations); the recover block runs on that state when the condition holds and a panic is there.
+	DeferRecover bool
+	PnIndex      int
+	NoPureIf     bool // keep the plain `if` emission for this function
 	// Prologue: Lean do-statements at the start of the body; RetExtra/RetExtraT: extra values (Lean terms and
 	// types) returned in front of the Go results (e.g. the threaded abstract state of modelled callees)
 	Prologue  []string
@@ -237,6 +244,7 @@ type FnSpec struct {
 
 type fnInfo struct {
 	spec     *FnSpec
+	hasLoop  bool
 	mayPanic bool
 	mutates  bool // returns the (possibly updated) receiver first
 	recvT    T
@@ -691,12 +699,30 @@ func (t *tr) call(c *ast.CallExpr, stmt bool) ([]string, []T) {
 			}
 			t.fail(c, "string(%s)", at.Kind)
 		case "append":
-			if len(c.Args) != 2 || c.Ellipsis.IsValid() {
+			if len(c.Args) != 2 {
 				t.fail(c, "append with other than one element")
 			}
 			a, at := t.expr(c.Args[0])
 			b, _ := t.expr(c.Args[1])
+			if c.Ellipsis.IsValid() {
+				return []string{"(" + a + " ++ " + b + ")"}, []T{at}
+			}
+			if _, bt := t.expr(c.Args[1]); strings.HasPrefix(bt.Lean, "Option ") && at.Lean == "List "+strings.TrimPrefix(bt.Lean, "Option ") {
+				// a nil-able element (checked non-nil by the source) appended to a list of plain elements
+				return []string{"(" + a + " ++ (" + b + ").toList)"}, []T{at}
+			}
 			return []string{"(" + a + " ++ [" + b + "])"}, []T{at}
+		case "make":
+			ty := t.g.goT(t.typeOf(c))
+			if !strings.HasPrefix(ty.Lean, "List ") && ty.Kind != "str" && ty.Kind != "strlist" {
+				t.fail(c, "make of %s", ty.Lean)
+			}
+			if len(c.Args) >= 2 {
+				if tv, ok := t.p.info.Types[c.Args[1]]; !ok || tv.Value == nil || tv.Value.ExactString() != "0" {
+					t.fail(c, "make with a non-zero length")
+				}
+			}
+			return []string{"[]"}, []T{ty}
 		case "delete":
 			ext := t.findExt("delete(" + calleeText(t.p, c.Args[0], t.recvName) + ")")
 			if ext == nil || ext.Effect == "" {
@@ -1346,6 +1372,10 @@ func (t *tr) stmt(s ast.Stmt) {
 		t.block(x.List)
 		t.pop()
 	case *ast.IfStmt:
+		if vars, ok := t.pureIf(x); ok {
+			t.emitPureIf(x, vars)
+			return
+		}
 		t.push()
 		if x.Init != nil {
 			t.stmt(x.Init)
@@ -1409,6 +1439,210 @@ func (t *tr) stmt(s ast.Stmt) {
 	default:
 		t.fail(s, "statement %T", s)
 	}
+}
+
+// pureIf: an `if` statement (with its else branches) that cannot leave the enclosing block (no return, break,
+// continue, panic, no operation that may panic or that a modelled operation ends with a `return`) only assigns
+// variables.  It is emitted as ONE tuple-valued block over the outer variables it assigns, so that the code
+// after it is not duplicated into both branches by the `do` notation.  Returns those variables (Lean names).
+func (t *tr) pureIf(x *ast.IfStmt) ([]string, bool) {
+	if t.spec.NoPureIf {
+		return nil, false
+	}
+	escapes := false
+	assigned := map[string]bool{}
+	declaredInside := map[string]bool{}
+	recvAssigned := false
+	var walk func(n ast.Node) bool
+	walk = func(n ast.Node) bool {
+		switch y := n.(type) {
+		case *ast.FuncLit:
+			return false // only occurs as a recognised predicate argument; its body is not part of this block
+		case *ast.ReturnStmt, *ast.BranchStmt, *ast.DeferStmt, *ast.ForStmt, *ast.RangeStmt, *ast.SwitchStmt:
+			escapes = true
+		case *ast.IndexExpr:
+			if tv, ok := t.p.info.Types[y.X]; ok {
+				if _, isMap := tv.Type.Underlying().(*types.Map); !isMap {
+					if _, aliased := t.alias[t.p.text(y)]; !aliased {
+						escapes = true
+					}
+				}
+			}
+		case *ast.SliceExpr:
+			if !isEmptyPrefixSlice(t.p, y) {
+				escapes = true
+			}
+		case *ast.CallExpr:
+			if id, ok := y.Fun.(*ast.Ident); ok && (id.Name == "panic" || id.Name == "delete") {
+				escapes = true
+			}
+			callee := calleeText(t.p, y.Fun, t.recvName)
+			ext := t.findExt(callee)
+			if ext == nil {
+				if sel, ok := y.Fun.(*ast.SelectorExpr); ok {
+					ext, _ = t.wildExt(sel, "")
+				}
+			}
+			if ext != nil {
+				if ext.MayPanic || ext.Effect != "" {
+					escapes = true
+				}
+				for _, st := range ext.Stmts {
+					if strings.Contains(st, "return") || strings.Contains(st, "←") {
+						escapes = true
+					}
+					if m := stmtAssignRe.FindStringSubmatch(st); m != nil {
+						assigned[m[1]] = true
+					}
+				}
+			} else if fi, recvExpr := t.g.lookupFn(t.p, y, nil); fi != nil {
+				if fi.mayPanic || fi.hasLoop {
+					escapes = true
+				}
+				if fi.mutates && recvExpr != nil {
+					if base, _, ok := t.lvalStruct(recvExpr); ok {
+						root := base
+						if i := strings.IndexByte(root, '.'); i > 0 {
+							root = root[:i]
+						}
+						assigned[root] = true
+					} else {
+						escapes = true
+					}
+				}
+			}
+		case *ast.AssignStmt:
+			for _, l := range y.Lhs {
+				switch lv := l.(type) {
+				case *ast.Ident:
+					if y.Tok == token.DEFINE && t.p.info.Defs[lv] != nil {
+						declaredInside[lv.Name] = true
+					} else if ln, ok := t.lookup(lv.Name); ok && !declaredInside[lv.Name] {
+						assigned[ln] = true
+					}
+				case *ast.SelectorExpr:
+					if base, _, ok := t.lvalStruct(lv.X); ok {
+						root := base
+						if i := strings.IndexByte(root, '.'); i > 0 {
+							root = root[:i]
+						}
+						assigned[root] = true
+						if root == t.recvLean() {
+							recvAssigned = true
+						}
+					} else {
+						escapes = true
+					}
+				default:
+					escapes = true
+				}
+			}
+		case *ast.IncDecStmt:
+			switch lv := y.X.(type) {
+			case *ast.Ident:
+				if ln, ok := t.lookup(lv.Name); ok {
+					assigned[ln] = true
+				}
+			case *ast.SelectorExpr:
+				if base, _, ok := t.lvalStruct(lv.X); ok {
+					root := base
+					if i := strings.IndexByte(root, '.'); i > 0 {
+						root = root[:i]
+					}
+					assigned[root] = true
+				} else {
+					escapes = true
+				}
+			}
+		case *ast.DeclStmt:
+			if gd, ok := y.Decl.(*ast.GenDecl); ok {
+				for _, sp := range gd.Specs {
+					if vs, ok := sp.(*ast.ValueSpec); ok {
+						for _, n := range vs.Names {
+							declaredInside[n.Name] = true
+						}
+					}
+				}
+			}
+		}
+		return !escapes
+	}
+	if x.Init != nil {
+		return nil, false
+	}
+	ast.Inspect(x.Cond, func(n ast.Node) bool { // the condition is evaluated outside the block
+		return true
+	})
+	ast.Inspect(x.Body, walk)
+	if x.Else != nil {
+		ast.Inspect(x.Else, walk)
+	}
+	_ = recvAssigned
+	if escapes {
+		return nil, false
+	}
+	var vars []string
+	for _, v := range t.visibleMuts() {
+		if assigned[v] {
+			if t.ltypes[v] == "" {
+				return nil, false
+			}
+			vars = append(vars, v)
+			delete(assigned, v)
+		}
+	}
+	if len(assigned) > 0 { // assigns something that is not a tracked mutable variable
+		return nil, false
+	}
+	return vars, true
+}
+
+var stmtAssignRe = regexp.MustCompile(`^(\w+) :=`)
+
+func (t *tr) emitPureIf(x *ast.IfStmt, vars []string) {
+	c, _ := t.expr(x.Cond)
+	if len(vars) == 0 {
+		t.emit("-- (no effect on the modelled state) if %s …", strings.ReplaceAll(t.p.text(x.Cond), "\n", " "))
+		return
+	}
+	var tys []string
+	for _, v := range vars {
+		tys = append(tys, t.ltypes[v])
+	}
+	n := t.fresh()
+	t.emit("let %s : %s := Id.run do", n, strings.Join(tys, " × "))
+	t.ind++
+	for _, v := range vars {
+		t.emit("let mut %s := %s", v, v)
+	}
+	t.emit("if %s then", c)
+	t.ind++
+	t.push()
+	t.block(x.Body.List)
+	t.pop()
+	t.ind--
+	if x.Else != nil {
+		t.emit("else")
+		t.ind++
+		switch e := x.Else.(type) {
+		case *ast.BlockStmt:
+			t.push()
+			t.block(e.List)
+			t.pop()
+		default:
+			n0 := len(t.lines)
+			t.stmt(e)
+			if len(t.lines) == n0 {
+				t.emit("pure ()")
+			}
+		}
+		t.ind--
+	}
+	t.emit("return %s", tupleOf(vars))
+	t.ind--
+	// a pattern assignment (a `match` in the elaborated term) rather than projections: the block is not copied
+	// into every use of the variables when a proof unfolds the definition
+	t.emit("%s := %s", tupleOf(vars), n)
 }
 
 func (t *tr) switchStmt(x *ast.SwitchStmt) {
@@ -1691,7 +1925,16 @@ func mayPanicBody(p *pkgInfo, g *gen, spec *FnSpec, fd *ast.FuncDecl, recvName s
 					res = true
 				}
 			}
-			if fi, _ := g.lookupFn(p, x, nil); fi != nil && fi.mayPanic {
+			isExt := false
+			for _, e := range append(append([]Ext{}, spec.Exts...), g.globalExts...) {
+				if e.Callee == callee {
+					isExt = true
+				}
+				if i := strings.IndexByte(callee, '.'); i > 0 && e.Callee == "_"+callee[i:] {
+					isExt = true
+				}
+			}
+			if fi, _ := g.lookupFn(p, x, nil); !isExt && fi != nil && fi.mayPanic {
 				res = true
 			}
 		}
@@ -1915,7 +2158,7 @@ func (g *gen) translate(fi *fnInfo) {
 	}
 	t.mayPanic = mayPanicBody(p, g, spec, fd, t.recvName) || t.hasLoop
 	t.mutates = !spec.NoRecv && (spec.Mutates || mutatesBody(p, g, spec, fd, t.recvName))
-	fi.mayPanic, fi.mutates = t.mayPanic, t.mutates
+	fi.mayPanic, fi.mutates, fi.hasLoop = t.mayPanic, t.mutates, t.hasLoop
 	src := p.text(fd)
 	var header string
 	func() {
@@ -2041,15 +2284,77 @@ func (g *gen) translate(fi *fnInfo) {
 		}
 		for _, l := range spec.Prologue {
 			t.emit("%s", l)
+			if m := prologueRe.FindStringSubmatch(l); m != nil {
+				t.locals[len(t.locals)-1][m[1]] = m[1]
+				t.ltypes[m[1]] = strings.TrimSpace(m[2])
+				t.order = append(t.order, m[1])
+			}
 		}
 		for i, n := range t.named {
 			t.emit("let mut %s : %s := %s", t.declareT(n, t.results[i].Lean), t.results[i].Lean, zeroOf(t.results[i]))
 		}
-		for _, s := range fd.Body.List {
+		bodyStmts := fd.Body.List
+		if spec.DeferRecover {
+			cond, retName, recBody := matchDeferRecover(bodyStmts)
+			if recBody == nil {
+				t.fail(fd, "the function does not start with the expected deferred recover block")
+			}
+			c := "true"
+			if cond != nil {
+				c, _ = t.expr(cond)
+			}
+			t.emit("let hasRecover : Bool := %s", c)
+			t.emit("let b : %s := Id.run do", rt)
+			t.ind++
+			t.push()
+			vis := t.visibleMuts()
+			for _, v := range vis {
+				t.emit("let mut %s := %s", v, v)
+			}
+			for _, st := range bodyStmts[1:] {
+				t.stmt(st)
+			}
+			if len(bodyStmts) == 1 || !endsInReturn(bodyStmts[len(bodyStmts)-1]) {
+				t.emit("return %s", t.retValue(nil))
+			}
+			t.pop()
+			t.ind--
+			// the state after the body
+			var parts []string
+			parts = append(parts, spec.RetExtra...)
+			if t.mutates {
+				l, _ := t.lookup(t.recvName)
+				parts = append(parts, l)
+			}
+			for i, part := range parts {
+				for _, v := range vis {
+					if v == part {
+						t.emit("%s := b%s", v, projection(i, len(parts)))
+					}
+				}
+			}
+			t.emit("if hasRecover then")
+			t.emit("  if let some %s := b%s then", retName, projection(spec.PnIndex, len(parts)))
+			t.ind += 2
+			t.push()
+			t.locals[len(t.locals)-1][retName] = retName
+			t.ltypes[retName] = "Panic"
+			for _, st := range recBody {
+				t.stmt(st)
+			}
+			t.emit("return %s", t.retValue(nil))
+			t.pop()
+			t.ind -= 2
+			t.emit("return b")
+			bodyStmts = nil
+		}
+		for _, s := range bodyStmts {
 			t.stmt(s)
 		}
 		// implicit return at the end
-		if len(fd.Body.List) == 0 || !endsInReturn(fd.Body.List[len(fd.Body.List)-1]) {
+		if spec.DeferRecover {
+			// already returned
+		} else if len(fd.Body.List) == 0 || !endsInReturn(fd.Body.List[len(fd.Body.List)-1]) {
 			var vals []string
 			for _, n := range t.named {
 				l, _ := t.lookup(n)
@@ -2072,6 +2377,58 @@ func (g *gen) translate(fi *fnInfo) {
 		g.report = append(g.report, map[string]any{"func": name, "lean": "Rux.Gen." + spec.Lean, "mayPanic": t.mayPanic, "mutatesReceiver": t.mutates, "lines": len(t.lines)})
 	}()
 }
+
+// matchDeferRecover: `[if cond {] defer func() { if ret := recover(); ret != nil { body } }() [}]` as first statement
+func matchDeferRecover(stmts []ast.Stmt) (cond ast.Expr, ret string, body []ast.Stmt) {
+	if len(stmts) == 0 {
+		return nil, "", nil
+	}
+	first := stmts[0]
+	if is, ok := first.(*ast.IfStmt); ok && is.Init == nil && is.Else == nil && len(is.Body.List) == 1 {
+		cond = is.Cond
+		first = is.Body.List[0]
+	}
+	ds, ok := first.(*ast.DeferStmt)
+	if !ok || len(ds.Call.Args) != 0 {
+		return nil, "", nil
+	}
+	fl, ok := ds.Call.Fun.(*ast.FuncLit)
+	if !ok || len(fl.Body.List) != 1 {
+		return nil, "", nil
+	}
+	inner, ok := fl.Body.List[0].(*ast.IfStmt)
+	if !ok || inner.Else != nil {
+		return nil, "", nil
+	}
+	as, ok := inner.Init.(*ast.AssignStmt)
+	if !ok || as.Tok != token.DEFINE || len(as.Lhs) != 1 || len(as.Rhs) != 1 {
+		return nil, "", nil
+	}
+	call, ok := as.Rhs[0].(*ast.CallExpr)
+	if !ok {
+		return nil, "", nil
+	}
+	if id, ok := call.Fun.(*ast.Ident); !ok || id.Name != "recover" {
+		return nil, "", nil
+	}
+	id, ok := as.Lhs[0].(*ast.Ident)
+	if !ok {
+		return nil, "", nil
+	}
+	be, ok := inner.Cond.(*ast.BinaryExpr)
+	if !ok || be.Op != token.NEQ {
+		return nil, "", nil
+	}
+	if x, ok := be.X.(*ast.Ident); !ok || x.Name != id.Name {
+		return nil, "", nil
+	}
+	if y, ok := be.Y.(*ast.Ident); !ok || y.Name != "nil" {
+		return nil, "", nil
+	}
+	return cond, id.Name, inner.Body.List
+}
+
+var prologueRe = regexp.MustCompile(`^let mut (\w+)\s*(?::([^=]*))?:=`)
 
 var binderRe = regexp.MustCompile(`\(([^:(){}]+):`)
 
